@@ -28,7 +28,7 @@ func exec(op string) vlib.Res {
 	switch f[0] {
 	case "rw", "wg", "res", "burst", "eff", "proc":
 		return execLocal(op)
-	case "inl", "bw", "zl", "gl", "tcpclass", "accept", "conncap", "fill", "dialer":
+	case "inl", "bw", "zl", "gl", "tcpclass", "accept", "conncap", "fill", "dialer", "drain":
 		return execLocal(op)
 	case "dedup", "sys", "ing":
 		if os.Getenv("C11_NOCHILD") != "" {
@@ -63,6 +63,8 @@ func execLocal(op string) vlib.Res {
 		return execAccept(f)
 	case "conncap":
 		return execConnCap(f)
+	case "drain":
+		return execDrain(f)
 	case "fill":
 		return execFill(f)
 	case "dialer":
